@@ -27,6 +27,11 @@ func checkC15(w *World, r *Report) {
 	checkC15Redaction(w, r)
 	checkParamsSelector(w, r, "C15.5")
 	checkC15BrokenConn(w, r)
+	// "its routes unchanged" after a panic inside a managed transaction: the aborted transaction must not have written
+	// storage reachable from the published tree (rule C03.1, repeated here)
+	o := newOwn(w)
+	o.analyseAll()
+	checkOwnWrites(w, r, o, "C15.7")
 }
 
 func checkC15Recover(w *World, r *Report) {
